@@ -60,8 +60,9 @@ func encoderOf(F font.Layouter) *simpleenc.Simple {
 type kind struct {
 	label      string
 	composite  bool
-	parentCMap bool   // the font's CMap uses another CMap
-	enc        string // "simple", "identity", "utf8"
+	parentCMap bool    // the font's CMap uses another CMap
+	t3scale    float64 // Type 3 fonts made here: FontMatrix[0]
+	enc        string  // "simple", "identity", "utf8"
 	make       func(t *tracer) font.Layouter
 }
 
@@ -293,6 +294,7 @@ func allKinds() []kind {
 			return goWithCMap(t, name)
 		}})
 	}
+	res = append(res, type3Kinds()...)
 	for _, s := range standard.All {
 		s := s
 		res = append(res, kind{label: "Std-" + s.PostScriptName(), enc: "simple", make: func(*tracer) font.Layouter {
